@@ -83,7 +83,7 @@ Inductive gaction :=
 | GAAccept (uni : bool)                 (* AcceptStream with a cancelled context: never blocks *)
 | GAAbandon (id : Z)                    (* CancelRead + CancelWrite on a stream it holds, reset acked *)
 | GAOpen (uni : bool)                   (* OpenStream / OpenUniStream *)
-| GAParams (nb nu : Z) (rsa : bool)     (* restoreTransportParameters / applyTransportParameters *)
+| GAParams (nb nu : Z) (rsa : bool)     (* restore / apply the peer's transport params *)
 | GAReject0RTT                          (* dropEncryptionLevel(0-RTT) *)
 | GAUseReset                            (* NextConnection *)
 | GAOldStream.                          (* the application abandons a stream of before the 0-RTT rejection *)
